@@ -269,6 +269,15 @@ func (r *chainRun) doStep(st *CStep) *Violation {
 	touched := []int{ni}
 	var pre *Obs
 	armed := false
+	if st.Op == "mine" && !bytes.Equal(n.L.GetMeta().TipBlockid, n.S.GetLatestBlockid()) {
+		// bring the state machine to the ledger tip first, as its own (fault-free) operation: a later
+		// failure of the mining proper must leave no trace relative to the state after this walk
+		if err := n.S.Walk(n.L.GetMeta().TipBlockid, false); err != nil {
+			r.logf("pre-mine walk failed: %v", err)
+		} else {
+			r.noteApplied(n, v)
+		}
+	}
 	if r.cfg.NoTrace {
 		pre = n.ObsAll(r.u, StateObsOpts{Pool: true})
 	}
